@@ -49,6 +49,23 @@ def bssidAddr (h : Hdr) : Bytes :=
   if !h.fromDS && !h.toDS then h.addr3 else if !h.fromDS && h.toDS then h.addr1 else h.addr2
 end Hdr
 
+/-- the MAC header bytes a parsed header came from (frame order) -/
+def Hdr.bytes (h : Hdr) : Bytes :=
+  [h.fc0, h.fc1, h.dur0, h.dur1] ++ h.addr1 ++ h.addr2 ++ h.addr3 ++ [h.sc0, h.sc1] ++
+  (if h.fromDS && h.toDS then h.addr4 else []) ++
+  (match h.qos with | some (a, b) => [a, b] | none => [])
+
+/-- the invariants `Dot11::from_bytes` establishes for a data frame -/
+structure Hdr.WF (h : Hdr) : Prop where
+  a1 : h.addr1.length = 6
+  a2 : h.addr2.length = 6
+  a3 : h.addr3.length = 6
+  a4 : h.addr4.length = 6
+  isData : h.type = 2
+  /-- the object is a `Dot11QoSData` exactly when `from_bytes` saw a subtype above 4 -/
+  qos : h.qos.isSome = decide (h.subtype > 4)
+  a4zero : (h.fromDS && h.toDS) = false → h.addr4 = [0, 0, 0, 0, 0, 0]
+
 /-- what a `SNAP` carries below it -/
 inductive SnapInner where
   | none
@@ -90,6 +107,15 @@ theorem snapParse_not_fault (ip : InnerParser) (b : Bytes) : (snapParse ip b).is
     · dsimp only
       split <;> rfl
   · rfl
+
+/-- what the decrypt functions return for decapsulated data `m?`: the SNAP built from it, null when there is no
+    data or the SNAP constructor throws (`catch (exception_base&) { return 0; }`) -/
+def snapResult (ip : InnerParser) (m : Option Bytes) : Option Snap :=
+  match m with
+  | none => none
+  | some m => match snapParse ip m with
+    | .ok s => some s
+    | _ => none
 
 /-- what hangs below the `Dot11Data` -/
 inductive Inner where
